@@ -81,7 +81,14 @@ class JaxDiscreteField(object):
     def __rpow__(self, other):
         return other ** self.value
 
-    def __array__(self):
+    # NumPy arrays on the left of a binary operator defer to the reflected
+    # operators of this class instead of converting the field to an array
+    __array_priority__ = 1000.
+
+    def __array__(self, dtype=None, copy=None):
+        return np.asarray(self.value, dtype=dtype)
+
+    def __jax_array__(self):
         return self.value
 
     def __getitem__(self, index):
